@@ -4,9 +4,9 @@ namespace AwsVerif.Proofs.C06
 open AwsVerif.Heap
 
 /-- invariant of a queue relative to the ghost state -/
-structure QInv (q : PQ) (owner : Nat → Option Elem) (ref : List Elem) : Prop where
+structure QInv (c : Cmp) (q : PQ) (owner : Nat → Option Elem) (ref : List Elem) : Prop where
   frame : Frame q owner ref
-  heap : HeapOrd q.items
+  heap : HeapOrd c q.items
   capOK : ∀ c, q.cap = some c → q.items.size ≤ c ∧ q.bp = none
 
 theorem perm_erase_of_append_singleton {l r : List Elem} {x : Elem} (h : (l ++ [x]).Perm r) : l.Perm (r.erase x) := by
@@ -139,21 +139,21 @@ theorem dropLast_bp_isSome (q : PQ) (k : Nat) : (dropLast q k).bp.isSome = q.bp.
 theorem kAt_pop {a : Array Elem} {i : Nat} (hi : i < a.size - 1) : kAt a.pop i = kAt a i := by
   unfold kAt; rw [Array.getElem?_pop]; simp [hi]
 
-theorem heapOrd_pop {a : Array Elem} (h : HeapOrd a) : HeapOrd a.pop := by
+theorem heapOrd_pop {c : Cmp} {a : Array Elem} (h : HeapOrd c a) : HeapOrd c a.pop := by
   intro i hi hn
   simp only [Array.size_pop] at hn
   rw [kAt_pop (by omega), kAt_pop hn]
   exact h i hi (by omega)
 
-theorem sameOf_siftEither (q : PQ) (k : Nat) (hk : k < q.items.size) : Same q (siftEither q k) :=
-  siftEither_ind (swapClosed_same q) q k hk (Same.refl q)
+theorem sameOf_siftEither (c : Cmp) (q : PQ) (k : Nat) (hk : k < q.items.size) : Same q (siftEither c q k) :=
+  siftEither_ind (swapClosed_same q) c q k hk (Same.refl q)
 
-theorem removeNode_spec {q : PQ} {owner ref} {idx : Nat} (hinv : QInv q owner ref) (hnd : ref.Nodup)
+theorem removeNode_spec {c : Cmp} (hc : CmpOK c) {q : PQ} {owner ref} {idx : Nat} (hinv : QInv c q owner ref) (hnd : ref.Nodup)
     (hsz : q.items.size < 2^63) (hidx : idx < q.items.size) :
-    ∃ e, q.items[idx]? = some e ∧ (removeNode q idx).2 = .ok e ∧
-      QInv (removeNode q idx).1 owner (ref.erase e) ∧
-      (removeNode q idx).1.items.size = q.items.size - 1 ∧ (removeNode q idx).1.cap = q.cap ∧
-      (removeNode q idx).1.bp.isSome = q.bp.isSome := by
+    ∃ e, q.items[idx]? = some e ∧ (removeNode c q idx).2 = .ok e ∧
+      QInv c (removeNode c q idx).1 owner (ref.erase e) ∧
+      (removeNode c q idx).1.items.size = q.items.size - 1 ∧ (removeNode c q idx).1.cap = q.cap ∧
+      (removeNode c q idx).1.bp.isSome = q.bp.isSome := by
   have he : q.items[idx]? = some q.items[idx] := Array.getElem?_eq_getElem hidx
   refine ⟨q.items[idx], he, ?_⟩
   generalize q.items[idx] = e at he
@@ -166,8 +166,8 @@ theorem removeNode_spec {q : PQ} {owner ref} {idx : Nat} (hinv : QInv q owner re
     have hf := dropLast_frame hinv.frame hnd hlast
     refine ⟨trivial, ⟨hf, ?_, ?_⟩, by simp, by simp, dropLast_bp_isSome _ _⟩
     · simpa using heapOrd_pop hinv.heap
-    · intro c hc
-      have := hinv.capOK c (by simpa using hc)
+    · intro cp hcp
+      have := hinv.capOK cp (by simpa using hcp)
       refine ⟨by simp; omega, ?_⟩
       have hb := dropLast_bp_isSome q (q.items.size - 1)
       rw [this.2] at hb
@@ -184,11 +184,11 @@ theorem removeNode_spec {q : PQ} {owner ref} {idx : Nat} (hinv : QInv q owner re
     simp only [sSwap_size] at hf3
     have hk3 : idx < (dropLast (sSwap q idx (q.items.size - 1)) (q.items.size - 1)).items.size := by
       simp; omega
-    have hsame := sameOf_siftEither _ _ hk3
-    have hf4 := siftEither_ind (swapClosed_frame owner (ref.erase e)) _ _ hk3 hf3
-    have hheap : HeapOrd (siftEither (dropLast (sSwap q idx (q.items.size - 1)) (q.items.size - 1)) idx).items := by
-      apply siftEither_heap (by simp; omega) hk3
-      apply either_of_heap (hinv.heap) (n' := _) (by simp)
+    have hsame := sameOf_siftEither c _ _ hk3
+    have hf4 := siftEither_ind (swapClosed_frame owner (ref.erase e)) c _ _ hk3 hf3
+    have hheap : HeapOrd c (siftEither c (dropLast (sSwap q idx (q.items.size - 1)) (q.items.size - 1)) idx).items := by
+      apply siftEither_heap hc (by simp; omega) hk3
+      apply either_of_heap hc (hinv.heap) (n' := _) (by simp)
       intro i hi hne
       simp only [dropLast_items, Array.size_pop, sSwap_items, Array.size_swapIfInBounds] at hi ⊢
       rw [kAt_pop (by simpa using hi), kAt_swap hidx hl]
@@ -196,40 +196,40 @@ theorem removeNode_spec {q : PQ} {owner ref} {idx : Nat} (hinv : QInv q owner re
       have : i ≠ q.items.size - 1 := by omega
       simp [this]
     refine ⟨trivial, ⟨hf4, hheap, ?_⟩, ?_, ?_, ?_⟩
-    · intro c hc
-      rw [hsame.2.1] at hc
-      have := hinv.capOK c (by simpa using hc)
+    · intro cp hcp
+      rw [hsame.2.1] at hcp
+      have := hinv.capOK cp (by simpa using hcp)
       refine ⟨by rw [hsame.1]; simp; omega, ?_⟩
       have hb := hsame.2.2
       rw [dropLast_bp_isSome, (sSwap_same q idx (q.items.size - 1)).2.2, this.2] at hb
-      cases hx : (siftEither (dropLast (sSwap q idx (q.items.size - 1)) (q.items.size - 1)) idx).bp <;> simp_all
+      cases hx : (siftEither c (dropLast (sSwap q idx (q.items.size - 1)) (q.items.size - 1)) idx).bp <;> simp_all
     · rw [hsame.1]; simp
     · rw [hsame.2.1]; simp
     · rw [hsame.2.2, dropLast_bp_isSome, (sSwap_same q idx (q.items.size - 1)).2.2]
 
-theorem mem_items_of_mem_ref {q : PQ} {owner ref} (hinv : QInv q owner ref) {x : Elem} (hx : x ∈ ref) :
+theorem mem_items_of_mem_ref {c : Cmp} {q : PQ} {owner ref} (hinv : QInv c q owner ref) {x : Elem} (hx : x ∈ ref) :
     ∃ i, i < q.items.size ∧ q.items[i]? = some x := by
   have : x ∈ q.items.toList := hinv.frame.perm.symm.subset hx
   have := Array.mem_def.mpr this
   obtain ⟨i, hi, rfl⟩ := Array.getElem_of_mem this
   exact ⟨i, hi, Array.getElem?_eq_getElem hi⟩
 
-theorem mem_ref_of_getElem? {q : PQ} {owner ref} (hinv : QInv q owner ref) {x : Elem} {i : Nat}
+theorem mem_ref_of_getElem? {c : Cmp} {q : PQ} {owner ref} (hinv : QInv c q owner ref) {x : Elem} {i : Nat}
     (hx : q.items[i]? = some x) : x ∈ ref := by
   apply hinv.frame.perm.subset
   have := Array.mem_of_getElem? hx
   exact Array.mem_def.mp this
 
 /-- the root is a minimum of the reference multiset -/
-theorem root_min {q : PQ} {owner ref} (hinv : QInv q owner ref) {e : Elem} (he : q.items[0]? = some e) :
-    e ∈ ref ∧ ∀ x ∈ ref, e.key ≤ x.key := by
+theorem root_min {c : Cmp} (hc : CmpOK c) {q : PQ} {owner ref} (hinv : QInv c q owner ref) {e : Elem} (he : q.items[0]? = some e) :
+    e ∈ ref ∧ ∀ x ∈ ref, c.le e.key x.key := by
   refine ⟨mem_ref_of_getElem? hinv he, ?_⟩
   intro x hx
   obtain ⟨i, hi, hxi⟩ := mem_items_of_mem_ref hinv hx
-  have := heapOrdF_min ((heapOrd_iff _).mp hinv.heap) i hi
+  have := heapOrdF_min hc ((heapOrd_iff c _).mp hinv.heap) i hi
   simpa [kAt, he, hxi] using this
 
-theorem live_bounds {q : PQ} {owner ref} (hinv : QInv q owner ref) {h i : Nat} (hh : q.handles h = some i) :
+theorem live_bounds {c : Cmp} {q : PQ} {owner ref} (hinv : QInv c q owner ref) {h i : Nat} (hh : q.handles h = some i) :
     i < q.items.size ∧ q.bp.isSome := by
   have hb := hinv.frame.bpok
   cases hq : q.bp with
@@ -243,11 +243,11 @@ theorem live_bounds {q : PQ} {owner ref} (hinv : QInv q owner ref) {h i : Nat} (
       · simp [Array.getElem?_eq_none h1] at this
     exact ⟨by omega, rfl⟩
 
-theorem remove_stale {q : PQ} {h : Nat} (hh : q.handles h = none) : remove q h = (q, .error .badNode) := by
+theorem remove_stale {c : Cmp} {q : PQ} {h : Nat} (hh : q.handles h = none) : remove c q h = (q, .error .badNode) := by
   unfold remove; simp [hh]
 
-theorem remove_live {q : PQ} {owner ref} (hinv : QInv q owner ref) {h i : Nat} (hh : q.handles h = some i) :
-    remove q h = removeNode q i := by
+theorem remove_live {c : Cmp} {q : PQ} {owner ref} (hinv : QInv c q owner ref) {h i : Nat} (hh : q.handles h = some i) :
+    remove c q h = removeNode c q i := by
   obtain ⟨h1, h2⟩ := live_bounds hinv hh
   unfold remove; simp [hh, h1, h2]
 
@@ -264,7 +264,7 @@ theorem foldl_clear (l : List (Option Nat)) (hs0 : Nat → Option Nat) (h : Nat)
       simp only [clearStep, upd, List.mem_cons, Option.some.injEq]
       grind
 
-theorem clear_spec {q : PQ} {owner ref} (hinv : QInv q owner ref) : QInv (clear q) owner [] := by
+theorem clear_spec {c : Cmp} {q : PQ} {owner ref} (hinv : QInv c q owner ref) : QInv c (clear q) owner [] := by
   have hnone : ∀ h, (clear q).handles h = none := by
     intro h
     unfold clear
@@ -298,9 +298,9 @@ theorem clear_spec {q : PQ} {owner ref} (hinv : QInv q owner ref) : QInv (clear 
   · simp [hitems]
   · intro _ _ _ _ hm; cases hm
   · intro i _ hi; simp [hitems] at hi
-  · intro c hc
-    rw [hcap] at hc
-    have := hinv.capOK c hc
+  · intro cp hcp
+    rw [hcap] at hcp
+    have := hinv.capOK cp hcp
     simp [hitems, hbp, this.2]
 
 theorem bpSetAt_size {B : Array (Option Nat)} {v : Option Nat} : bpSetAt B B.size v = B.push v := by
@@ -429,12 +429,12 @@ theorem kAt_push {a : Array Elem} {e : Elem} {i : Nat} (hi : i < a.size) : kAt (
 theorem pushCore_bp_none {q : PQ} {e : Elem} (hq : q.bp = none) : (pushCore q e none).bp = none := by
   unfold pushCore; simp [hq]
 
-theorem pushRef_spec {q : PQ} {owner ref} {e : Elem} {h : Option Nat} (hinv : QInv q owner ref)
+theorem pushRef_spec {c : Cmp} (hc : CmpOK c) {q : PQ} {owner ref} {e : Elem} {h : Option Nat} (hinv : QInv c q owner ref)
     (hleg : ∀ h0, h = some h0 → q.handles h0 = none)
     (hfo : ∀ x e', h ≠ some x → owner x = some e' → e' ≠ e) :
-    (pushRef q e h = (q, some .exceedsMax) ∧ isFull q = true) ∨
-    (pushRef q e h = (q, some .unsupported) ∧ isFull q = false ∧ h.isSome ∧ q.cap.isSome) ∨
-    (∃ q', pushRef q e h = (q', none) ∧ isFull q = false ∧ QInv q' (ownerPush owner h e) (e :: ref) ∧
+    (pushRef c q e h = (q, some .exceedsMax) ∧ isFull q = true) ∨
+    (pushRef c q e h = (q, some .unsupported) ∧ isFull q = false ∧ h.isSome ∧ q.cap.isSome) ∨
+    (∃ q', pushRef c q e h = (q', none) ∧ isFull q = false ∧ QInv c q' (ownerPush owner h e) (e :: ref) ∧
       q'.items.size = q.items.size + 1 ∧ q'.cap = q.cap) := by
   unfold pushRef
   by_cases hfull : isFull q = true
@@ -449,27 +449,27 @@ theorem pushRef_spec {q : PQ} {owner ref} {e : Elem} {h : Option Nat} (hinv : QI
       have hk : (pushCore q e h).items.size - 1 < (pushCore q e h).items.size := by
         simp [pushCore_items]
       have hf1 := pushCore_frame (e := e) (h := h) hinv.frame hleg hfo
-      have hf2 := siftUp_ind (swapClosed_frame _ _) (pushCore q e h).items.size _ _ hk hf1
-      have hsame := siftUp_ind (swapClosed_same (pushCore q e h)) (pushCore q e h).items.size _ _ hk (Same.refl _)
-      have hheap : HeapOrd (siftUp (pushCore q e h).items.size (pushCore q e h) ((pushCore q e h).items.size - 1)).1.items := by
-        apply siftUp_heap _ _ _ hk (by omega)
+      have hf2 := siftUp_ind (swapClosed_frame _ _) c (pushCore q e h).items.size _ _ hk hf1
+      have hsame := siftUp_ind (swapClosed_same (pushCore q e h)) c (pushCore q e h).items.size _ _ hk (Same.refl _)
+      have hheap : HeapOrd c (siftUp c (pushCore q e h).items.size (pushCore q e h) ((pushCore q e h).items.size - 1)).1.items := by
+        apply siftUp_heap hc _ _ _ hk (by omega)
         simp only [pushCore_items, Array.size_push, Nat.add_sub_cancel]
-        exact up_of_heap_push ((heapOrd_iff _).mp hinv.heap) (fun i hi => kAt_push hi)
+        exact up_of_heap_push ((heapOrd_iff c _).mp hinv.heap) (fun i hi => kAt_push hi)
       refine ⟨⟨hf2, hheap, ?_⟩, ?_, ?_⟩
-      · intro c hc
-        rw [hsame.2.1, pushCore_cap] at hc
-        have hcap := hinv.capOK c hc
-        have hlt : q.items.size < c := by
-          unfold isFull at hfull; simp [hc] at hfull; exact hfull
+      · intro cp hcp
+        rw [hsame.2.1, pushCore_cap] at hcp
+        have hcap := hinv.capOK cp hcp
+        have hlt : q.items.size < cp := by
+          unfold isFull at hfull; simp [hcp] at hfull; exact hfull
         refine ⟨by rw [hsame.1, pushCore_items]; simp; omega, ?_⟩
         have hnone : h = none := by
           cases h with
           | none => rfl
-          | some h0 => exfalso; apply hun; simp [hcap.2, hc]
+          | some h0 => exfalso; apply hun; simp [hcap.2, hcp]
         subst hnone
         have hb := hsame.2.2
         rw [pushCore_bp_none hcap.2] at hb
-        cases hx : (siftUp (pushCore q e none).items.size (pushCore q e none) ((pushCore q e none).items.size - 1)).1.bp <;> simp_all
+        cases hx : (siftUp c (pushCore q e none).items.size (pushCore q e none) ((pushCore q e none).items.size - 1)).1.bp <;> simp_all
       · rw [hsame.1, pushCore_items]; simp
       · rw [hsame.2.1, pushCore_cap]
 
